@@ -152,7 +152,8 @@ def expectedErrs (pm : List Path) (rules : List Rule) (o : Opts) : List Want :=
       than the maximum; `Truncated` only when the maximum was reached;
     * ordered by (path, code);
     * redaction — an error hides its value if the redactor covers its path or the path of any
-      value that printing the reported value would reveal. -/
+      value that printing the reported value would reveal (where several wanted errors share path
+      and code, only what all of them demand is demanded). -/
 def errorsOK (want : List Want) (o : Opts) (singleRule : Bool) (obs : Option Result) : Bool :=
   let fields := match obs with | some r => r.fields | none => []
   let trunc := match obs with | some r => r.truncated | none => false
@@ -167,6 +168,7 @@ def errorsOK (want : List Want) (o : Opts) (singleRule : Bool) (obs : Option Res
   errSorted fields &&
   fields.all fun e =>
     e.hidden || !(o.redacted.contains e.path ||
-      want.any fun w => w.path == e.path && w.code == e.code && w.shows.any o.redacted.contains)
+      (let ms := want.filter fun w => w.path == e.path && w.code == e.code
+       !ms.isEmpty && ms.all fun w => w.shows.any o.redacted.contains))
 
 end Rivaas.Presence
